@@ -970,7 +970,45 @@ impl Check for C19 {
             Tier::Thorough => 900,
         }
     }
-    fn run_job(&self, rng: &mut Rng, _tier: Tier, _job: u64, ctx: &mut JobCtx<'_>) {
+    fn run_job(&self, rng: &mut Rng, tier: Tier, job: u64, ctx: &mut JobCtx<'_>) {
+        if job < if tier == Tier::Quick { 2 } else { 40 } {
+            // a conversation with a multi-packet (>= 2^24-1 byte) request: end of stream and
+            // read errors around every packet header / fragment boundary (these runs are too
+            // large for a complete enumeration of byte offsets)
+            let mut base = super::props::gen_giant_inbound(rng, 0);
+            base.reads = ReadSched {
+                explicit: vec![],
+                cuts: vec![],
+                tail: Tail::Fixed(4_194_304),
+            };
+            let (hdrs, total) = header_offsets(&base);
+            ctx.stats.bump("enum.giant_conversations", 1);
+            ctx.eval(&base);
+            let mut p = base.clone();
+            for h in &hdrs {
+                for d in [-2i64, -1, 0, 1, 3, 4, 5] {
+                    let k = *h as i64 + d;
+                    if k < 0 || k as u64 > total {
+                        continue;
+                    }
+                    p.faults = vec![Fault {
+                        at: FaultAt::ClientByte(k as u64),
+                        kind: FaultKind::Eof,
+                        persistent: true,
+                    }];
+                    ctx.eval(&p);
+                }
+            }
+            for n in 0..12u64 {
+                p.faults = vec![Fault {
+                    at: FaultAt::Read(n),
+                    kind: FaultKind::Err(ERR_KINDS[(n as usize) % ERR_KINDS.len()]),
+                    persistent: n % 2 == 0,
+                }];
+                ctx.eval(&p);
+            }
+            return;
+        }
         let base = gen_c19_conv(rng);
         let (out, _) = ctx.eval_out(&base);
         let n_ops = out.w.op;
@@ -1196,6 +1234,39 @@ fn hostile_block(r: &mut Rng, nparams: usize) -> Blob {
     // inconsistent parameter blocks
     let mut b = Vec::new();
     let nm = (nparams + 7) / 8;
+    if nparams > 0 && r.chance(1, 3) {
+        // a well-formed block over every bindable type code, cut short (or padded) by a few
+        // bytes: the decoder's idea of each value's size must agree with what it reads
+        let mut t = None;
+        let mut blk = gen_exec_block(r, nparams, &mut t, false, 100);
+        for v in blk.values.iter_mut() {
+            if matches!(v, PVal::Null) && r.chance(2, 3) {
+                *v = PVal::Int(r.next() as i64);
+            }
+        }
+        // make sure the last parameter carries inline bytes of a fixed-width type sometimes
+        if r.coin() {
+            if let Some(ty) = blk.bind.as_mut() {
+                let last = ty.len() - 1;
+                ty[last] = (*r.pick(&[0x01u8, 0x02, 0x0d, 0x09, 0x03, 0x08, 0x04, 0x05]), 0);
+                blk.values[last] = PVal::Int(r.next() as i64);
+                if ty[last].0 == 0x04 {
+                    blk.values[last] = PVal::F32(r.next() as u32);
+                } else if ty[last].0 == 0x05 {
+                    blk.values[last] = PVal::F64(r.next());
+                }
+            }
+        }
+        let types = blk.bind.clone();
+        let mut enc = crate::enc::param_block(&blk, types.as_deref());
+        let cut = 1 + r.usize_below(4);
+        if r.chance(4, 5) {
+            enc.truncate(enc.len().saturating_sub(cut));
+        } else {
+            enc.extend(r.bytes(cut));
+        }
+        return Blob::Lit(enc);
+    }
     match r.below(8) {
         0 => {} // empty block although parameters are declared
         1 => b.extend(r.bytes(nm.saturating_sub(1))), // truncated NULL bitmap
